@@ -66,6 +66,9 @@ func main() {
 	if err != nil {
 		rep.Undecided("framework", "known_findings.json", "-", err.Error())
 	}
+	for _, k := range known {
+		knownKeys = append(knownKeys, k.Key)
+	}
 	cmd := fmt.Sprintf("/verif/bin/coapcheck -property %s -tier %s", pr.ID, *tier)
 
 	configs := []core.Config{{Name: "linux/amd64", IntBit: 64}}
@@ -90,6 +93,8 @@ func main() {
 	os.Exit(rep.Finish(*out, known, seed, cmd))
 }
 
+var knownKeys []string
+
 func runConfig(rep *core.Report, pr *rules.Property, repo string, cfg core.Config, tier, only string, verbose bool) {
 	rep.SetConfig(cfg.Name)
 	defer func() {
@@ -109,6 +114,39 @@ func runConfig(rep *core.Report, pr *rules.Property, repo string, cfg core.Confi
 	rep.Stats["packages@"+cfg.Name] = len(p.Pkgs)
 	rep.Stats["source_functions@"+cfg.Name] = len(p.SrcFuncs(cfg.Tests))
 	rep.Stats["load_s@"+cfg.Name] = p.LoadSecs
+	// anchors: every role name a rule mentions (embedded rule sources) plus every name this property's rules look up (dry run
+	// without absorption, report discarded); everything else that is an unexported single-package helper is analysed as part of its callers
+	core.AbsorptionEnabled = false
+	func() {
+		defer func() { _ = recover() }()
+		dry := core.NewReport(pr.ID, tier, pr.Level)
+		dry.SetConfig(cfg.Name)
+		denv := &rules.Env{P: p, R: dry, Tier: tier, Only: only, Primary: cfg.Name == "linux/amd64"}
+		if !denv.Primary && pr.RunExtra != nil {
+			pr.RunExtra(denv)
+		} else {
+			pr.Run(denv)
+		}
+	}()
+	looked := p.Looked
+	p.BuildAbsorption(func(n string) bool {
+		if looked[n] || rules.IsAnchorName(n) {
+			return true
+		}
+		for _, k := range knownKeys {
+			if strings.Contains(k, ":"+n+":") {
+				return true // a recorded finding is keyed by this function
+			}
+		}
+		return false
+	})
+	core.AbsorptionEnabled = true
+	hs := core.AbsorbedHelpers()
+	sort.Strings(hs)
+	rep.Stats["absorbed_helpers@"+cfg.Name] = len(hs)
+	if verbose {
+		fmt.Println("absorbed helpers:", strings.Join(hs, " "))
+	}
 	env := &rules.Env{P: p, R: rep, Tier: tier, Only: only, Primary: cfg.Name == "linux/amd64"}
 	if !env.Primary && pr.RunExtra == nil {
 		// default for extra configurations: rerun every rule (keys carry the configuration suffix)
